@@ -88,6 +88,7 @@ def run_check(prop, tier, seed, replay=None):
                            trusted_base=prop.trusted_base, evaluations=1, distinct_nontrivial=0,
                            explanation='harness build failed'), time.time() - t0, 1, prop.assumptions)
         return 1
+    prop.exes = exes
     ok, out = lib.coq_make(lib.model_targets())
     proofs = lib.check_proofs(prop.id)
     model_exe = lib.build_model_driver()
